@@ -37,6 +37,12 @@ Theorem C18_erase_observers : forall c ops s,
   trace_mut fixed c s ops = trace fixed c s (erase ops) /\ veq (run fixed c s ops) (run fixed c s (erase ops)).
 Proof. exact erase_observers. Qed.
 
+(* instance: an observer between backward() and optimizer.step(), then eval() and an inference *)
+Theorem C18_between_backward_and_step : forall c s o, is_observer o = true ->
+  trace_mut fixed c s [OBackward; o; OStep; OSetMode false; OForward] = trace fixed c s [OBackward; OStep; OSetMode false; OForward]
+  /\ veq (run fixed c s [OBackward; o; OStep; OSetMode false; OForward]) (run fixed c s [OBackward; OStep; OSetMode false; OForward]).
+Proof. exact between_backward_and_step. Qed.
+
 Theorem C18_set_spec_roundtrip : forall c s sp ops, forallb is_observer ops = true ->
   veq (run fixed c s (OSetSpec sp :: ops ++ [OSetSpec (spec s)])) s.
 Proof. exact set_spec_roundtrip. Qed.
@@ -108,6 +114,7 @@ Print Assumptions C18_observers_preserve.
 Print Assumptions C18_later_observation_same.
 Print Assumptions C18_continuation_same.
 Print Assumptions C18_erase_observers.
+Print Assumptions C18_between_backward_and_step.
 Print Assumptions C18_set_spec_roundtrip.
 Print Assumptions C18_set_spec_roundtrip_costs.
 Print Assumptions C18_export_deterministic.
